@@ -86,7 +86,14 @@ static void reference(const Fn *f, const unsigned long *a, int M, int d, int dma
         if (slen >= dmax) { r->skip = 1; return; }
         r->ok = 1; for (int i = 0; i < slen; i++) r->post[d + i] = a[s + i]; r->post[d + slen] = 0; r->skip = 3;   /* what follows the terminator is not specified */
         return;
-    case F_FLDIN: r->skip = 1; return;      /* ignores slen on the pinned tree (known finding in C06): zones not evaluated */
+    case F_FLDIN: {                         /* at most slen characters up to the terminator, the rest of the field nulled */
+        if (slen == 0) { r->skip = 1; return; }
+        if (L < 0 && s + slen > M) { r->skip = 1; return; }
+        long m = (L >= 0 && L < slen) ? L : slen;
+        r->rlo = s; r->rhi = s + ((L >= 0 && L < slen) ? L + 1 : slen); r->wlo = d; r->whi = d + dmax;
+        if (slen > dmax) { r->ok = 0; r->code = 406; return; }
+        r->ok = 1; for (int i = 0; i < m; i++) r->post[d + i] = a[s + i]; for (int i = m; i < dmax; i++) r->post[d + i] = 0;
+        return; }
     case F_CCPY: r->skip = 1; return;       /* memccpy_s result semantics are a known finding (C06); overlap of memccpy covered by memcpy_s */
     }
 }
